@@ -18,7 +18,7 @@ pub fn forty_two() -> u32 { 42 }
 #[macro_export]
 macro_rules! nothing { ($($t:tt)*) => {}; }
 """
-TVIS = ["", "pub ", "pub(crate) ", "pub(in crate::cases) "]
+TVIS = ["", "pub ", "pub(crate) ", "pub(in crate::cases) ", "pub(super) ", "pub(self) "]
 
 
 def fname(idx):
@@ -33,7 +33,7 @@ def item_text(c, k):
 
 def render(c):
     n = int(c["case"])
-    tvis = TVIS[n % 4]
+    tvis = TVIS[n % len(TVIS)]
     items = "\n    ".join(item_text(c, k) for k in range(len(c["body"])))
     calls = []
     for idx in c["truth"]:
